@@ -38,6 +38,30 @@ LOGS = {"thresholds", "_theta_threshold", "_drift_detected", "all_drift_states",
 MONOTONE_STATE = {"KdqTreeStreaming": {"_drift_counter"}}
 
 
+_LOGCACHE = {}
+
+
+def _pure_log(tr, attr):
+    """Is self.<attr> write-only for update(): no guard, no value stored into another attribute and no returned value
+    mentions it?  (A history list whichever way it is organised - eight parallel lists, one list of rows, a dict of lists.)"""
+    k = (id(tr), attr)
+    if k in _LOGCACHE:
+        return _LOGCACHE[k]
+    m = lambda a: a == ("attr", attr) or (a[0] == "loopvar" and a[2] == attr)
+    ok = True
+    for e in tr.events:
+        if any(T.mentions(p.cond, m) for p in e.pc[-1:]):
+            ok = False
+        elif e.kind in ("store", "mutate") and e.attr != attr and isinstance(e.d.get("value"), T.R) and T.mentions(e.value, m):
+            ok = False
+        elif e.kind in ("return",) and isinstance(e.d.get("value"), T.R) and len(e.stack) == 1 and T.mentions(e.value, m):
+            ok = False
+        if not ok:
+            break
+    _LOGCACHE[k] = ok
+    return ok
+
+
 def lab(cell):
     return ",".join("%s=%r" % kv for kv in sorted(cell.items()))
 
@@ -254,6 +278,8 @@ def drift_param(ctx, cname, p, strict, cell):
                 continue
             if e.attr in LOGS or e.attr in carriers or e.attr == "_drift_state":
                 continue
+            if _pure_log(tr, e.attr):
+                continue  # only ever appended to / overwritten: nothing update() decides or stores elsewhere reads it
             if not dep_v and under_decision(e) and (with_alarm(e) or no_alarm_as_a_whole(e)):
                 continue
             if e.attr in MONOTONE_STATE.get(cname, ()):
